@@ -7,6 +7,7 @@ import (
 	"fmt"
 	"os"
 	"path/filepath"
+	"regexp"
 	"sort"
 	"strconv"
 	"strings"
@@ -57,6 +58,8 @@ type Finding struct {
 	State     string `json:"state"` // known | fixed
 	Property  string `json:"property"`
 	Signature string `json:"signature"`
+	// SignatureRegex (anchored) names a family of signatures that share one root cause
+	SignatureRegex string `json:"signature_regex,omitempty"`
 	WhatFails string `json:"what_fails"`
 	Minimal   any    `json:"minimal_case,omitempty"`
 	Commit    string `json:"commit,omitempty"`
@@ -79,7 +82,15 @@ func loadFindings() []Finding {
 // knownFor returns the known (not fixed) finding with this signature, if any.
 func knownFor(prop, sig string) *Finding {
 	for _, f := range loadFindings() {
-		if f.State == "known" && f.Property == prop && f.Signature == sig {
+		match := f.Signature == sig
+		if !match && f.SignatureRegex != "" {
+			if re, err := regexp.Compile("^(?:" + f.SignatureRegex + ")$"); err == nil {
+				match = re.MatchString(sig)
+			} else {
+				harnessFail("known_findings.json: bad signature_regex %q: %v", f.SignatureRegex, err)
+			}
+		}
+		if f.State == "known" && f.Property == prop && match {
 			ff := f
 			return &ff
 		}
@@ -103,10 +114,11 @@ type Reporter struct {
 	violations []Violation
 	known      map[string]int
 	knownText  map[string]string
+	printed    map[string]bool
 }
 
 func newReporter(prop string) *Reporter {
-	return &Reporter{prop: prop, known: map[string]int{}, knownText: map[string]string{}}
+	return &Reporter{prop: prop, known: map[string]int{}, knownText: map[string]string{}, printed: map[string]bool{}}
 }
 
 // Report records a (minimised, replay-confirmed) violation. It prints either a
@@ -115,8 +127,9 @@ func (r *Reporter) Report(sig, class, msg string, replay any) {
 	r.mu.Lock()
 	defer r.mu.Unlock()
 	if f := knownFor(r.prop, sig); f != nil {
-		if r.known[sig] == 0 {
+		if !r.printed[f.WhatFails] {
 			fmt.Printf("KNOWN-FINDING: property=%s %s [%s]\n", r.prop, f.WhatFails, sig)
+			r.printed[f.WhatFails] = true
 		}
 		r.known[sig]++
 		r.knownText[sig] = f.WhatFails
